@@ -115,3 +115,51 @@ Proof.
   - rewrite select_as_filter. apply selected_blocks_sorted; [|exact Hok].
     apply isort_sd_sorted. destruct Hsd as [_ H]. exact H.
 Qed.
+
+(* ---- a directory precedes everything below it, in every target walk ---- *)
+Lemma path_lt_below cs c : cs <> [] -> c <> [] -> Forall nosep (cs ++ c) ->
+  path_lt (joinc cs) (joinc (cs ++ c)).
+Proof.
+  intros Hne Hc Hns. apply Forall_app in Hns. destruct Hns as [H1 H2]. unfold path_lt.
+  rewrite compare_path_joinc; auto.
+  - apply lex_prefix_lt. exact Hc.
+  - destruct cs; [congruence|discriminate].
+  - apply Forall_app. split; assumption.
+Qed.
+
+Lemma sorted_occurs_before P a b : StronglySorted path_lt P -> In a P -> In b P -> path_lt a b ->
+  exists pre post, P = pre ++ b :: post /\ In a pre.
+Proof.
+  intros HS Ha Hb Hab. destruct (in_split b P Hb) as (pre & post & E). exists pre, post. split; [exact E|].
+  rewrite E in HS, Ha. apply in_app_or in Ha. destruct Ha as [Ha|[Ha|Ha]]; [exact Ha| |].
+  - subst a. exfalso. unfold path_lt in Hab. rewrite compare_path_refl in Hab. discriminate.
+  - exfalso. clear E. induction pre as [|x pre IH]; cbn [app] in HS.
+    + inversion HS as [|? ? _ Hall]; subst. rewrite Forall_forall in Hall. specialize (Hall a Ha).
+      pose proof (compare_path_trans _ _ _ Hab Hall) as Haa. rewrite compare_path_refl in Haa. discriminate.
+    + inversion HS; subst. auto.
+Qed.
+
+Theorem nested_any_dir_first_proof ost inner target cs c :
+  sd_wf inner -> no_linkname inner -> wf_name (st_path ost) -> st_is_dir ost = true ->
+  cs <> [] -> c <> [] -> Forall nosep (cs ++ c) ->
+  let P := map fst (nested_listing ost inner target) in
+  In (joinc cs) P -> In (joinc (cs ++ c)) P ->
+  exists pre post, P = pre ++ joinc (cs ++ c) :: post /\ In (joinc cs) pre.
+Proof.
+  intros Hsd Hnl Ho Hd Hne Hc Hns P Ha Hb.
+  apply sorted_occurs_before; auto.
+  - apply (proj2 (nested_walk_any_sorted_proof ost inner target Hsd Hnl Ho Hd)).
+  - apply path_lt_below; auto.
+Qed.
+
+Theorem subdir_any_dir_first_proof ds target cs c cbs e :
+  sd_wf ds -> walk_subdirs ds target = Some (cbs, e) ->
+  cs <> [] -> c <> [] -> Forall nosep (cs ++ c) ->
+  In (joinc cs) (map fst cbs) -> In (joinc (cs ++ c)) (map fst cbs) ->
+  exists pre post, map fst cbs = pre ++ joinc (cs ++ c) :: post /\ In (joinc cs) pre.
+Proof.
+  intros Hsd Hw Hne Hc Hns Ha Hb.
+  destruct (subdir_walk_any_sorted_proof ds target Hsd) as (cbs' & Hw' & HS & _).
+  rewrite Hw in Hw'. inversion Hw'; subst cbs'.
+  apply sorted_occurs_before; auto. apply path_lt_below; auto.
+Qed.
